@@ -7,6 +7,7 @@ mod maps;
 mod proto;
 mod rng;
 mod table;
+mod topo;
 mod tree;
 
 fn main() {
@@ -25,6 +26,7 @@ fn main() {
         "con" => con::run(seed, thorough),
         "maps" => maps::run(seed, thorough),
         "tree" => tree::run(seed, thorough),
+        "topo" => topo::run(seed, thorough),
         _ => {
             eprintln!("unknown stage {stage}");
             std::process::exit(2);
